@@ -541,12 +541,17 @@ static void v_case (long idx, const char *key, const char *desc)
 
 static void v_alarm_handler (int sig) { (void) sig; _exit (77); }
 
-/* arm a CPU+wall watchdog for the current case */
+/* arm a watchdog for the current case: `seconds` of CPU time of this process (a compile or run that does not
+ * terminate burns CPU; CPU time does not depend on how loaded the machine is), plus a wall-clock backstop of 30x
+ * for a case that blocks without using CPU */
 static void v_watchdog (int seconds)
 {
   struct itimerval it;
   memset (&it, 0, sizeof (it));
   it.it_value.tv_sec = seconds;
+  signal (SIGPROF, v_alarm_handler);
+  setitimer (ITIMER_PROF, &it, NULL);
+  it.it_value.tv_sec = (long) seconds * 30;
   signal (SIGALRM, v_alarm_handler);
   setitimer (ITIMER_REAL, &it, NULL);
 }
